@@ -95,6 +95,16 @@ def compare(o, m, aspects):
     return diffs
 
 
+def drop_excluded(ctx, srcs):
+    """programs the property excludes (string repetition beyond 2^20 bytes: their legitimate result would itself exhaust
+    memory) must not be executed by the implementation; the model recognises them"""
+    m = ctx.model([("interp", "x%d" % i, F("input", s, "")) for i, s in enumerate(srcs)], timeout=3000)
+    keep = [s for i, s in enumerate(srcs) if not (m.get("x%d" % i) or "").startswith("class=panic:EXCLUDED")]
+    if len(keep) != len(srcs):
+        ctx.suite_stats["excluded_by_property"] = ctx.suite_stats.get("excluded_by_property", 0) + len(srcs) - len(keep)
+    return keep
+
+
 def run(ctx, cases, tag=""):
     """cases: dicts with id, src (bytes), opts, name -> list of (case, goobs, model dict)"""
     mres = ctx.model([("interp", c["id"], F(c.get("name", "input"), c["src"], c.get("opts", ""))) for c in cases],
